@@ -14,4 +14,5 @@ def build() -> Spec:
     helpers_c.install(spec)
     models_c.install(spec)
     service_c.install(spec)
+    models_c.install_late(spec)
     return spec
